@@ -2,8 +2,8 @@ package rules
 
 import (
 	"go/ast"
-	"strings"
 	"go/token"
+	"strings"
 
 	"jsverif/internal/core"
 )
